@@ -154,6 +154,10 @@ func c01Findings() []c01Finding {
 		{ID: "FR1", Repro: reproFR1, Match: func(h prog.History, engine string, o Obs, src string) bool {
 			return engine == "interpreter" && o.Root == rootInvalidatedResource && (hasMemberIndexSwap(src) || memberIndexSwapUpTo(h, -1))
 		}},
+		{ID: "FG1", Repro: prog.History{}, Match: func(h prog.History, engine string, o Obs, src string) bool {
+			// group storage/caps (FG1 = FK2): contract added and removed in one transaction orphans its slabs
+			return o.Root == "runtime.UnreferencedRootSlabsError" && strings.Contains(src, ".contracts.add(") && strings.Contains(src, ".contracts.remove(")
+		}},
 		{ID: "FF4", Repro: reproFF4, Match: func(h prog.History, engine string, o Obs, src string) bool {
 			return engine == "vm" && o.Root == rootUnexpected && strings.Contains(o.Err, msgContractNonAddress) &&
 				declaresContractOutsideAccount(src)
